@@ -258,6 +258,8 @@ func NewUniverse() *Universe {
 	u.dts["MapNode"] = &DT{Name: "MapNode", Kind: "map", Elem: SNode, Key: SString}
 	u.dts["SliceAny"] = &DT{Name: "SliceAny", Kind: "slice", Elem: SAny}
 	u.dts["MapAny"] = &DT{Name: "MapAny", Kind: "map", Elem: SAny, Key: SString}
+	// map[interface{}]interface{} (yaml.v2): entries are indexed by an abstract id; ykey(m, id) is the key
+	u.dts["MapYaml"] = &DT{Name: "MapYaml", Kind: "map", Elem: SAny, Key: SInt}
 	u.dts["SliceString"] = &DT{Name: "SliceString", Kind: "slice", Elem: SString}
 	return u
 }
@@ -276,11 +278,13 @@ const prelude = `
 (declare-datatypes ((Opt 0)) (
   ((o_nil) (o_merge) (o_set) (o_mset) (o_color) (o_precision (oprec Real)) (o_setkeys (okeys SliceString)) (o_path (opid Int)))))
 (declare-datatypes ((Err 0)) (((e_nil) (e_mk (eid Int)))))
-(declare-datatypes ((Any 0) (SliceAny 0) (MapAny 0)) (
+(declare-datatypes ((Any 0) (SliceAny 0) (MapAny 0) (MapYaml 0)) (
   ((a_nil) (a_bool (ab Bool)) (a_int (ai Int)) (a_real (ar Real)) (a_str (astr String)) (a_node (an Node))
-   (a_hash (ah Hash8)) (a_slice (asl SliceAny)) (a_map (am MapAny)) (a_pe (ape PathElem)) (a_other (aoid Int) (aotag Int)))
+   (a_hash (ah Hash8)) (a_slice (asl SliceAny)) (a_map (am MapAny)) (a_ymap (aym MapYaml)) (a_pe (ape PathElem)) (a_other (aoid Int) (aotag Int)))
   ((mk_SliceAny (arr_SliceAny (Array Int Any)) (len_SliceAny Int)))
-  ((mk_MapAny (dom_MapAny (Array String Bool)) (val_MapAny (Array String Any)) (card_MapAny Int)))))
+  ((mk_MapAny (dom_MapAny (Array String Bool)) (val_MapAny (Array String Any)) (card_MapAny Int)))
+  ((mk_MapYaml (dom_MapYaml (Array Int Bool)) (val_MapYaml (Array Int Any)) (card_MapYaml Int)))))
+(declare-fun ykey (MapYaml Int) Any)
 `
 
 // Node kinds.
